@@ -39,7 +39,7 @@ type rewriter struct {
 
 func Rewrite(p *Program, pick func(RewriteSite) bool, wrapClosures bool) (*Program, []string) {
 	rw := &rewriter{pick: pick, wrapClosures: wrapClosures}
-	q := &Program{Types: p.Types, Features: p.Features}
+	q := &Program{Types: p.Types, Globals: p.Globals, Features: p.Features}
 	for _, f := range p.Funcs {
 		rw.mutated = map[string]bool{}
 		collectMutated(f.Body, rw.mutated)
